@@ -26,7 +26,7 @@ def lit(s):
 
 
 def caps(tier):
-    return dict(m=10, a=10, g=8, v=6, intmax=999) if tier == "quick" else dict(m=24, a=20, g=36, v=12, intmax=99999)
+    return dict(m=10, a=10, g=5, v=4, intmax=99) if tier == "quick" else dict(m=24, a=20, g=12, v=8, intmax=9999)
 
 
 def make_queries(tier):
@@ -119,8 +119,9 @@ def make_queries(tier):
         label = E.call("display:ManifestParts", mp)
         back = E.call("manifest_label_to_parts", label)
         E.prove("v2 label parses back to the same parts", veq(back, some(mp)))
-        via_uri = E.call("manifest_label_to_parts", E.call("to_manifest_uri", label))
-        E.prove("v2 label inside a manifest URI parses back to the same parts", veq(via_uri, some(mp)))
+        if tier == "thorough":
+            via_uri = E.call("manifest_label_to_parts", E.call("to_manifest_uri", label))
+            E.prove("v2 label inside a manifest URI parses back to the same parts", veq(via_uri, some(mp)))
         E.cover("vendor, version and reason all present", z3.And(is_some(cgi), is_some(version), is_some(reason)))
         E.cover("version without vendor", z3.And(z3.Not(is_some(cgi)), is_some(version)))
 
